@@ -184,9 +184,11 @@ Qed.
 Print Assumptions C14_id0.
 
 (* ---- non-vacuity: a concrete lazy-mode history ---------------------------------------------------- *)
+(* The same history, byte for byte, is corpus/C14/lazy-example.cases (built from srvlib.HistGen
+   primitives by tools/gen_corpus_c14.py) and is run through the real iodined.c by checks/c14.py. *)
 
 Definition nV : list N := [118;97;97;97;97;107;97;113;115;103;113;46;97;46;98;99].  (* vaaaakaqsgq.a.bc *)
-Definition nL : list N := [108;97;97;50;119;97;97;97;97;100;117;113;97;97;97;97;98;50;97;97;97;98;122;110;97;97;97;97;98;101;110;105;46;97;46;98;99].  (* laa2waaaaduqaaaab2aaabznaaaabeni.a.bc *)
+Definition nL : list N := [108;97;100;115;101;105;118;105;97;111;116;103;104;99;97;97;101;107;115;103;113;98;102;103;50;118;101;97;98;101;110;105;46;97;46;98;99].  (* ladseiviaotghcaaeksgqbfg2veabeni.a.bc *)
 Definition nO : list N := [111;97;108;97;97;98;46;97;46;98;99].  (* oalaab.a.bc : lazy mode *)
 Definition nP1 : list N := [112;97;97;97;99;97;97;105;46;97;46;98;99].  (* paaacaai.a.bc *)
 Definition nP2 : list N := [112;97;97;97;99;97;97;113;46;97;46;98;99].  (* paaacaaq.a.bc *)
@@ -203,7 +205,7 @@ Definition exQ (name : list N) (id : N) (port : N) : hq :=
   {| h_name := name; h_type := 10; h_id := id; h_from := exA port; h_id2 := 0; h_from2 := addr0;
      h_dest := Some [10;1;2;3] |}.
 Definition ex_events : list event :=
-  [ EDns 1000000 12345 (exQ nV 100 4000);     (* version: session 0 *)
+  [ EDns 1000000 13083364 (exQ nV 100 4000);  (* version: session 0, seed 13083364 *)
     EDns 1000000 0 (exQ nL 101 4000);         (* login *)
     EDns 1000000 0 (exQ nO 102 4000);         (* option: lazy mode *)
     EDns 1000000 0 (exQ nP1 201 4000);        (* ping 1: held *)
@@ -258,7 +260,7 @@ Proof. vm_compute. reflexivity. Qed.
 (* a version request with id 0 IS answered, with id 0 (only ping and data requests ignore id 0) *)
 Example C14_example_id0_version_answered :
   map ex_short (answers (Some (q_inst (exQ nV 0 4000)))
-                  (snd (step login_stub zc_frame unz_frame ex_cfg (init_state ex_ips) (EDns 1000000 12345 (exQ nV 0 4000)))))
+                  (snd (step login_stub zc_frame unz_frame ex_cfg (init_state ex_ips) (EDns 1000000 13083364 (exQ nV 0 4000)))))
   = [(4000, 0)].
 Proof. vm_compute. reflexivity. Qed.
 
